@@ -321,6 +321,10 @@ func streamAlias(seed uint64, n int) (*Summary, error) {
 	sum.Rule = "engine-stream cases with nested slice defaults and PostTransforms that modify the destination in place, one case in four the dedicated shape Validate(empty [][]T) on Slice(Slice(prim)).Default(nested); each is run twice on ONE schema object with deep snapshots of the input before/after; non-trivial = the schema has a default, catch or PostTransform; distinct = distinct case line"
 	root := rng.New(seed)
 	distinct := map[string]bool{}
+	sum.Evaluations++
+	if diff := sameNameTypesProbe(); diff != "" {
+		sum.addViolation("C19", Mismatch{Case: "one Struct{name, email} schema object used with two handler-local destination types that are both called `form`", What: "the schema behaved differently after it had been used with another destination type (state kept on the schema)", Impl: diff})
+	}
 	if d30Probe() {
 		sum.Known["C19"] = appendUnique(sum.Known["C19"], "D30 a CustomFunc schema of slice/map type stores the caller's input value itself in the destination, so a PostTransform editing the destination in place edits Parse's input")
 		sum.Hist["known_D30_hits"]++
